@@ -5,6 +5,8 @@ import (
 	"flag"
 	"fmt"
 	"os"
+	"runtime/pprof"
+	"time"
 )
 
 func main() {
@@ -27,6 +29,17 @@ func main() {
 		if err := json.Unmarshal(b, &spec); err != nil {
 			fmt.Fprintln(os.Stderr, err)
 			os.Exit(2)
+		}
+		if p := os.Getenv("GOSMT_PROF"); p != "" {
+			f, _ := os.Create(p)
+			pprof.StartCPUProfile(f)
+			defer pprof.StopCPUProfile()
+			go func() {
+				time.Sleep(60 * time.Second)
+				pprof.StopCPUProfile()
+				f.Close()
+				os.Exit(9)
+			}()
 		}
 		res := runHarness(&spec)
 		if *out != "" {
